@@ -13,6 +13,7 @@ pub mod c12;
 pub mod c13;
 pub mod c14;
 pub mod c18;
+pub mod c19;
 pub mod conc;
 pub mod crash;
 
@@ -35,6 +36,7 @@ pub fn dispatch(a: &Args) -> i32 {
         "C13" => c13::run(a),
         "C14" => c14::run(a),
         "C18" => c18::run(a),
+        "C19" => c19::run(a),
         "scenarios" => {
             // debug: run every directed scenario and print the outcome
             let mut code = 0;
@@ -76,6 +78,13 @@ fn replay(a: &Args, path: &str) -> i32 {
                     0
                 }
             }
+        }
+        Some("c19") => {
+            let code = c19::replay(&j);
+            if code == 1 {
+                println!("VIOLATION property={} replay={}", a.prop, path);
+            }
+            code
         }
         Some("c18") => {
             let code = c18::replay(&j);
